@@ -41,6 +41,69 @@ X_HorizontalZoom(e) == Ok(e) /\ e.r = HorizontalZoomSeq(e.a.zi, e.a.x, e.a.y, e.
 X_HorizontalZoomMinMax(e) == Ok(e) /\ e.r = HorizontalZoomMinMax(e.a.zi, e.a.x, e.a.y, e.a.zo)
 X_VerticalZoom(e) == Ok(e) /\ e.r = VerticalZoomSeq(e.a.zi, e.a.f, e.a.zo)
 
+\* ---- C07 / C08 ------------------------------------------------------------
+\* bag equality of two sequences
+Count(s, x) == Cardinality({i \in 1..Len(s) : s[i] = x})
+SameBag(s, t) == Len(s) = Len(t) /\ \A x \in SetOfSeq(s) \cup SetOfSeq(t) : Count(s, x) = Count(t, x)
+
+Exp_Shift(e) == Shift(e.a.id, e.a.dx, e.a.dy, e.a.dv, e.w.abs)
+X_Shift(e) == Ok(e) /\ e.r = <<Exp_Shift(e)>>
+                     /\ (e.w.abs => ValidAbsId(<<e.r[1][1], e.r[1][2], e.r[1][3], 0, 0>>))
+
+Exp_ShiftCompose(e) ==
+  LET id == e.a.id  d1 == e.a.d1  d2 == e.a.d2  ab == e.w.abs
+      r1 == Shift(id, d1[1], d1[2], d1[3], ab)
+  IN  << r1, Shift(r1, d2[1], d2[2], d2[3], ab),
+         Shift(id, d1[1] + d2[1], d1[2] + d2[2], d1[3] + d2[3], ab), id >>
+X_ShiftCompose(e) == /\ Ok(e) /\ e.r = Exp_ShiftCompose(e)
+                     /\ e.r[2] = e.r[3]          \* two shifts compose to the shift by the sum
+                     /\ e.r[4] = e.a.id          \* shifting back restores the original
+
+X_N6(e)  == Ok(e) /\ SameBag(e.r, N6(e.a.id, e.w.abs))
+X_N8(e)  == Ok(e) /\ SameBag(e.r, N8(e.a.id, e.w.abs))
+X_N26(e) == Ok(e) /\ SameBag(e.r, N26(e.a.id, e.w.abs))
+
+Exp_NLayer(e) == NLayer(SetOfSeq(e.a.ids), e.a.hl, e.a.vl, e.w.abs)
+X_NLayer(e) ==
+  IF e.a.hl >= 0 /\ e.a.vl >= 0
+  THEN Ok(e) /\ e.a.kept /\ ListIsSet(e.r, Exp_NLayer(e))
+  ELSE Err(e) /\ e.r = <<>>
+
+\* ---- C10 ------------------------------------------------------------------
+Exp_SpToExt(e) == [i \in 1..Len(e.a.ids) |-> SpToExt(e.a.ids[i])]
+X_SpToExt(e) == Ok(e) /\ e.a.kept /\ e.r = Exp_SpToExt(e)
+Exp_ExtToSp(e) == [i \in 1..Len(e.a.ids) |-> ExtToSp(e.a.ids[i])]
+X_ExtToSp(e) == Ok(e) /\ e.a.kept /\ e.r = Exp_ExtToSp(e)
+\* field list, getter list and printed form all return the five numbers in place
+X_NewExtID(e) == Ok(e) /\ e.r = <<e.a.id, e.a.id, e.a.id>>
+X_Expand(e) == /\ Ok(e) /\ ListIsSet(e.r, ExpandImpl(e.a.id))
+               /\ Len(e.r) = ExpandCount(e.a.id)
+X_VoxelID(e) == Ok(e) /\ e.r = <<e.a.id[2], e.a.id[3], e.a.id[5]>>
+
+\* ---- C04 ------------------------------------------------------------------
+Exp_MergeExt(e) == MergeImpl(SetOfSeq(e.a.ids), e.a.h, e.a.v)
+X_MergeExt(e) ==
+  IF ZoomOk(RealH(e, e.a.h)) /\ ZoomOk(RealV(e, e.a.v))
+  THEN /\ Ok(e) /\ e.a.kept /\ ListIsSet(e.r, Exp_MergeExt(e))
+       /\ ListIsSet(e.a.r2, SetOfSeq(e.r))            \* merging the result again changes nothing
+  ELSE Err(e) /\ e.r = <<>>
+Exp_MergeSp(e) ==
+  {ExtToSp(t) : t \in MergeImpl({SpToExt(s) : s \in SetOfSeq(e.a.ids)}, e.a.z, e.a.z)}
+X_MergeSp(e) ==
+  IF ZoomOk(RealH(e, e.a.z))
+  THEN /\ Ok(e) /\ e.a.kept /\ ListIsSet(e.r, Exp_MergeSp(e))
+       /\ ListIsSet(e.a.r2, SetOfSeq(e.r))
+  ELSE Err(e) /\ e.r = <<>>
+
+\* ---- C05 ------------------------------------------------------------------
+\* both argument orders are recorded: r = <<f(A,B), f(B,A)>>
+Exp_OverlapExt(e) == LET b == OverlapArr(SetOfSeq(e.a.A), SetOfSeq(e.a.B)) IN <<b, b>>
+X_OverlapExt(e) == Ok(e) /\ e.r = Exp_OverlapExt(e)
+Exp_OverlapSp(e) ==
+  LET b == OverlapArr({SpToExt(s) : s \in SetOfSeq(e.a.A)}, {SpToExt(s) : s \in SetOfSeq(e.a.B)})
+  IN  <<b, b>>
+X_OverlapSp(e) == Ok(e) /\ e.r = Exp_OverlapSp(e)
+
 \* ---- dispatch -------------------------------------------------------------
 Explains(e) ==
   /\ e.bad = ""
@@ -49,6 +112,21 @@ Explains(e) ==
       [] e.op = "HorizontalZoom"       -> X_HorizontalZoom(e)
       [] e.op = "HorizontalZoomMinMax" -> X_HorizontalZoomMinMax(e)
       [] e.op = "VerticalZoom"         -> X_VerticalZoom(e)
+      [] e.op = "Shift"                -> X_Shift(e)
+      [] e.op = "ShiftCompose"         -> X_ShiftCompose(e)
+      [] e.op = "N6"                   -> X_N6(e)
+      [] e.op = "N8"                   -> X_N8(e)
+      [] e.op = "N26"                  -> X_N26(e)
+      [] e.op = "NLayer"               -> X_NLayer(e)
+      [] e.op = "SpToExt"              -> X_SpToExt(e)
+      [] e.op = "ExtToSp"              -> X_ExtToSp(e)
+      [] e.op = "NewExtID"             -> X_NewExtID(e)
+      [] e.op = "Expand"               -> X_Expand(e)
+      [] e.op = "VoxelID"              -> X_VoxelID(e)
+      [] e.op = "MergeExt"             -> X_MergeExt(e)
+      [] e.op = "MergeSp"              -> X_MergeSp(e)
+      [] e.op \in {"OverlapExt", "OverlapExtArr"} -> X_OverlapExt(e)
+      [] e.op \in {"OverlapSp", "OverlapSpArr"}   -> X_OverlapSp(e)
       [] OTHER -> FALSE
 
 \* what the specification expected (diagnostics for a rejected line)
@@ -58,6 +136,21 @@ Expected(e) ==
     [] e.op = "HorizontalZoom"       -> HorizontalZoomSeq(e.a.zi, e.a.x, e.a.y, e.a.zo)
     [] e.op = "HorizontalZoomMinMax" -> HorizontalZoomMinMax(e.a.zi, e.a.x, e.a.y, e.a.zo)
     [] e.op = "VerticalZoom"         -> VerticalZoomSeq(e.a.zi, e.a.f, e.a.zo)
+    [] e.op = "Shift"                -> <<Exp_Shift(e)>>
+    [] e.op = "ShiftCompose"         -> Exp_ShiftCompose(e)
+    [] e.op = "N6"                   -> N6(e.a.id, e.w.abs)
+    [] e.op = "N8"                   -> N8(e.a.id, e.w.abs)
+    [] e.op = "N26"                  -> N26(e.a.id, e.w.abs)
+    [] e.op = "NLayer"               -> Exp_NLayer(e)
+    [] e.op = "SpToExt"              -> Exp_SpToExt(e)
+    [] e.op = "ExtToSp"              -> Exp_ExtToSp(e)
+    [] e.op = "NewExtID"             -> <<e.a.id, e.a.id, e.a.id>>
+    [] e.op = "Expand"               -> ExpandImpl(e.a.id)
+    [] e.op = "VoxelID"              -> <<e.a.id[2], e.a.id[3], e.a.id[5]>>
+    [] e.op = "MergeExt"             -> Exp_MergeExt(e)
+    [] e.op = "MergeSp"              -> Exp_MergeSp(e)
+    [] e.op \in {"OverlapExt", "OverlapExtArr"} -> Exp_OverlapExt(e)
+    [] e.op \in {"OverlapSp", "OverlapSpArr"}   -> Exp_OverlapSp(e)
     [] OTHER -> "no-spec-operator"
 
 \* ---- machine events (histories) -------------------------------------------
